@@ -132,14 +132,14 @@ Variable I : sched -> mon -> Prop.
 Variable mu : sched -> Z.
 Variable fin : sched -> bool.
 Hypothesis step : forall s m, I s m -> mon_ok m -> good_step p I s m.
-Hypothesis mu_nonneg : forall s m, I s m -> 0 <= mu s.
+Hypothesis mu_nonneg : forall s m, I s m -> fin s = false -> 0 <= mu s.
 Hypothesis mu_dec : forall s m, I s m -> fin s = false -> mu (fst (next s)) < mu s.
 Hypothesis fin_stays : forall s m, I s m -> fin s = true -> fin (fst (next s)) = true.
 Lemma run_nexts_fin : forall k s m, I s m -> mon_ok m -> (fin s = true \/ mu s < Z.of_nat k) ->
   fin (fst (fst (run_ops p s m (repeat Next k)))) = true.
 Proof.
   induction k as [|k IH]; intros s m HI Hm Hk; cbn [repeat run_ops].
-  - destruct Hk as [Hk|Hk]; [exact Hk|]. pose proof (mu_nonneg s m HI). lia.
+  - destruct Hk as [Hk|Hk]; [exact Hk|]. cbn [fst]. destruct (fin s) eqn:Ef; [reflexivity|]. pose proof (mu_nonneg s m HI Ef). lia.
   - pose proof (step s m HI Hm) as Hs. unfold good_step in Hs.
     assert (Hk' : fin (fst (next s)) = true \/ mu (fst (next s)) < Z.of_nat k).
     { destruct (fin s) eqn:Ef; [left; exact (fin_stays s m HI Ef)|]. destruct Hk as [Hk|Hk]; [discriminate|].
